@@ -20,6 +20,11 @@ every step of a history on one or more Torrent objects — size lookups (verify_
 callback mode incl. cancelled, failing and callback-raises runs, verify, filetree, partial_size of
 files / directories / unknown paths, size / pieces / files) interleaved with edits of the metainfo
 (in place, by replacement, through the setters, copy()) and with changes of the disk.
+
+Spellings of the content path (harness/impl/c20path.py, Lean: Torf.Model.FileSizePath over C18's path
+resolution, theorems C20_path_*): `link/..`, `a//b`, `a/./b`, trailing slashes, relative to a working
+directory reached through a link, … with copies of the content at the real and at the lexical location
+(each intact / damaged / absent); the size check must judge the tree the OS resolves the spelling to.
 """
 import errno
 import itertools
@@ -31,6 +36,7 @@ from harness import common
 from harness.gen import layouts
 from harness.impl import content
 from harness.impl import c20hist
+from harness.impl import c20path
 
 K = 16384
 
@@ -64,7 +70,12 @@ RULE = ('case = (layout, per-file disk state, path shape, pieces kind, callback)
         'kind: 15) x (metainfo edit: %d) x (disk = content of the old | new metainfo) on one three-file torrent + '
         'structured random histories of 4..16 steps on 1..3 objects; every observed operation is one evaluation; '
         'non-trivial = the operation comes after a change (edit / setter / copy / disk) that itself came after an '
-        'earlier size lookup; distinct = (history, operation index)' % len(c20hist.EX_EDITS))
+        'earlier size lookup; distinct = (history, operation index).  Spellings of the content path: every (state of '
+        'the tree at the real location: %d) x (state of the tree at the lexical location) x %d catalogued spellings '
+        '(link/.., a//b, a/./b, trailing slashes, relative to a cwd reached through a link, top through a link, ...) '
+        '+ random walks through the linked tree, x {no callback, passive, cancel at each call}, str and pathlib; '
+        'non-trivial = the spelling is not the plain path; distinct = (scenario, spelling, form, callback)'
+        % (len(c20hist.EX_EDITS), len(c20path.STATES), len(c20path.CATALOGUE)))
 
 
 # --------------------------------------------------------------------------------------------
@@ -78,9 +89,7 @@ def _exc_obs(e, fsmap):
         if idx == -1:
             # a read error inside a directory that stands where a listed file should be names the
             # unreadable entry below that path: it still names the listed file's location
-            for fp, i in fsmap.items():
-                if str(e.path).startswith(fp + os.sep):
-                    idx = i
+            idx = fsmap.below(e.path)
         return ['read'], idx, e.errno
     if n == 'VerifyFileSizeError':
         return ['verifyFileSize', e.actual_size, e.expected_size], fsmap.get(str(e.filepath), -1), None
@@ -209,18 +218,14 @@ def _run_chunk(cases):
             t = _mk_torrent(torf, c)
             before = repr(t.metainfo)
             base = path.rstrip(os.sep)
-            fsmap, keymap = {}, {}
-            for i, f in enumerate(c['files']):
-                fp = str(pathlib.Path(base, *f['path']))
-                tp = str(pathlib.Path(c['name'], *f['path']))
-                fsmap[fp] = i
-                keymap[(fp, tp)] = i
+            # which listed file a reported path denotes: by text, else by what the OS makes of it
+            fsmap = c20path.PathIndex(base, c['name'], c['files'])
             for cb in callbacks_for(c):
                 calls = []
 
                 def callback(tt, fs, tp, done, total, exc, _stops=cb):
                     eo = _exc_obs(exc, fsmap) if exc is not None else (None, None, None)
-                    idx = keymap.get((str(fs), str(tp)), -1)
+                    idx = fsmap.pair(fs, tp)
                     okargs = (tt is t and isinstance(done, int) and isinstance(total, int)
                               and (exc is None or isinstance(exc, torf.TorfError))
                               and (exc is None or eo[1] in (idx, None)))
@@ -587,6 +592,93 @@ def evaluate_histories(ctx, drv, hs):
                             'impl': impl}, limit=9)
 
 
+# --------------------------------------------------------------------------------------------
+# spellings of the content path
+
+def _sc_public(sc):
+    return {k: v for k, v in sc.items()}
+
+
+def evaluate_spellings(ctx, drv, scs):
+    import hashlib
+    import json
+    results = common.pmap(c20path.run_chunk, common.split(scs, common.NPROC * 8))
+    flat = [x for chunk in results for x in chunk]
+    reqs, owner = [], []
+    for si, (sc, res) in enumerate(flat):
+        if 'harness_exc' in res:
+            ctx.machinery_error('harness could not run the spelling scenario: ' + res['harness_exc'], _sc_public(sc))
+            continue
+        for pi, sp in enumerate(res['spells']):
+            for ri, run_ in enumerate(sp['runs']):
+                reqs.append({'op': 'c20.spelling', 'nodes': res['nodes'], 'cwd': sp['cwd'], 'dirTotals': res['totals'],
+                             'path': sp['text'], 'meta': res['meta'], 'cb': run_['cb'], 'measured': sp['measured']})
+                owner.append((si, pi, ri))
+    replies = dict(zip(owner, drv.run(reqs)))
+    for si, (sc, res) in enumerate(flat):
+        if 'harness_exc' in res:
+            continue
+        pub = _sc_public(sc)
+        skey = hashlib.sha1(json.dumps(pub, sort_keys=True, default=str).encode()).hexdigest()[:16]
+        for pi, sp in enumerate(res['spells']):
+            nocb_true = None
+            rep0 = None
+            for ri, run_ in enumerate(sp['runs']):
+                rep = replies[(si, pi, ri)]
+                rep0 = rep0 or rep
+                cb = run_['cb']
+                case = {'spelling': pub, 'label': sp['label'], 'path': sp['text'], 'form': sp['form'], 'cwd': sp['cwd'],
+                        'cb': cb, 'resolves_to': rep['resolves'], 'measured': sp['measured']}
+                plainsp = sp['label'] in ('plain', 'rel plain', 'lexical-tree-itself', 'lexical-tree-2-itself')
+                ctx.case(key=('spell', skey, pi, sp['form'], None if cb is None else tuple(cb)), nontrivial=not plainsp,
+                         kind=f"{sc['shape']}/{'nocb' if cb is None else 'passive' if cb == [] else 'cancel'}")
+                if rep['variantDiffers']:
+                    ctx.dist['spelling-runs-on-which-the-normpath-variant-differs'] += 1
+                if not rep['hyp']:
+                    ctx.dist['spelling-outside-hypothesis(not judged)'] += 1
+                    continue
+                if not rep['specEqMeasured']:
+                    ctx.machinery_error('spelling: the model of path resolution disagrees with the operating system '
+                                        '(spec on the resolved tree != spec on what was measured through the spelling)',
+                                        dict(case, spec=rep['spec'], specMeasured=rep['specMeasured']))
+                    continue
+                if not rep['modelEqSpec']:
+                    ctx.machinery_error('spelling: model != spec although C20_path_spelling is proved', case)
+                    continue
+                impl, spec = run_['impl'], rep['spec']
+                if cb is None:
+                    nocb_true = impl['res'] == {'ok': True}
+                ok = impl == spec
+                if ok and 'raised' in impl['res'] and impl['res']['raised'][0] in ('read', 'verifyFileSize', 'verifyIsDir'):
+                    first = 0 if rep['singleAtDir'] else next((i for i, e in enumerate(rep['errs']) if e is not None), None)
+                    if run_['which'] != first:
+                        ok = False
+                        impl = dict(impl, error_names_listed_file=run_['which'])
+                        spec = dict(spec, error_names_listed_file=first)
+                if not ok:
+                    ctx.violation('verify_filesize() on a spelled content path deviates from the specification evaluated on '
+                                  'the tree the operating system resolves the path to (result / raised error / callback '
+                                  'trace / which file the reported path denotes)', case, spec, impl, finding_matchers=MATCHERS)
+                    continue
+                if impl != rep['model']:
+                    ctx.corr_break('c20.spelling', case, rep['model'], impl)
+            if rep0 is not None and rep0['hyp'] and rep0['specEqMeasured']:
+                ctx.dist['spelling-verify'] += 1
+                if sp['verify'] is True:
+                    ctx.dist['spelling-verify-true'] += 1
+                    if nocb_true is not True:
+                        ctx.violation('verify() succeeds on a spelled path on which verify_filesize() does not',
+                                      {'spelling': pub, 'label': sp['label'], 'path': sp['text'], 'form': sp['form'],
+                                       'cwd': sp['cwd'], 'cb': None}, {'verify_filesize': True},
+                                      {'verify': True, 'verify_filesize': sp['runs'][0]['impl']['res']},
+                                      finding_matchers=MATCHERS)
+                if sp['label'] in ('link/..', 'rel ../ from cwd through link') and len(ctx.samples) < 11 and sc['shape'] == 'spelling-exhaustive' \
+                        and sc['real'] != 'intact':
+                    ctx.sample({'spelling': sp['text'].replace(os.environ.get('VERIF_SCRATCH', '\0'), '<scratch>'), 'cwd_relative': sp['label'].startswith('rel'),
+                                'real_tree': sc['real'], 'tree_at_lexical_location': sc['lex'],
+                                'impl_nocb': sp['runs'][0]['impl']['res'], 'verify': sp['verify']}, limit=11)
+
+
 def run(ctx, drv):
     ctx.notes['rule'] = RULE
     ctx.notes['assumptions'] = [
@@ -606,8 +698,14 @@ def run(ctx, drv):
         'the disk does not change while a call is in progress; a torrent without file list (mode None) is a multi-file '
         'torrent with an empty list; a callback that raises ends the run like a cancelling one and its exception leaves '
         'verify_filesize()',
+        'spelled paths: path resolution is the model of property C18 (Torf.Reuse.resolve on an inode table scanned from the '
+        'real tree with lstat/readlink/listdir; 40 symbolic links per resolution; everything searchable — the checks run as '
+        'root); its agreement with the operating system is checked on every case (specification on the resolved tree = '
+        'specification on what os.stat finds through the spelling); the empty string and spellings that only resolve after '
+        'pathlib has dropped a trailing slash or dot behind a regular file are not judged; reported paths are compared by '
+        'what they denote (same file / same realpath), never as text; os.path / pathlib string functions are trusted',
     ]
-    corpus, hcorpus = [], []
+    corpus, hcorpus, scorpus = [], [], []
     cdir = os.path.join(common.CORPUS_DIR, 'C20')
     if os.path.isdir(cdir):
         import json
@@ -616,23 +714,29 @@ def run(ctx, drv):
                 cc = json.load(open(os.path.join(cdir, fn)))['case']
                 if 'history' in cc:
                     hcorpus.append(dict(cc['history'], shape='corpus-history'))
+                elif 'spelling' in cc:
+                    scorpus.append(dict(cc['spelling'], shape='corpus-spelling'))
                 else:
                     corpus.append(dict(cc, shape='corpus'))
     cases = corpus + gen_cases(ctx)
     evaluate(ctx, drv, cases)
     evaluate_histories(ctx, drv, hcorpus + c20hist.gen_histories(ctx))
+    evaluate_spellings(ctx, drv, scorpus + c20path.gen_scenarios(ctx))
     ctx.exhaustive = False
 
 
 def search(ctx, drv):
     evaluate(ctx, drv, gen_cases(ctx, scale=3.0))
     evaluate_histories(ctx, drv, c20hist.gen_histories(ctx, scale=3.0))
+    evaluate_spellings(ctx, drv, c20path.gen_scenarios(ctx, scale=3.0))
 
 
 def replay(ctx, drv, rp):
     c = dict(rp['case'])
     if 'history' in c:
         evaluate_histories(ctx, drv, [dict(c['history'], shape=c['history'].get('shape', 'replay'))])
+    elif 'spelling' in c:
+        evaluate_spellings(ctx, drv, [dict(c['spelling'])])
     else:
         c.pop('cb', None)
         c.setdefault('shape', 'replay')
